@@ -13,7 +13,7 @@ def abs (t : Table) : Nat → Bool := has t
 theorem has_iff (t : Table) (j : Nat) : has t j = true ↔ ∃ x ∈ t, x.1 = j := by
   simp [has, List.any_eq_true]
 
-theorem has_append (t : Table) (i j : Nat) : has (t ++ [(i, i)]) j = (has t j || j == i) := by
+theorem has_append (t : Table) (i p j : Nat) : has (t ++ [(i, p)]) j = (has t j || j == i) := by
   rw [Bool.eq_iff_iff]
   simp only [has_iff, Bool.or_eq_true, beq_iff_eq, List.mem_append, List.mem_singleton]
   constructor
@@ -22,7 +22,7 @@ theorem has_append (t : Table) (i j : Nat) : has (t ++ [(i, i)]) j = (has t j ||
     · subst hx; exact Or.inr h.symm
   · rintro (⟨x, hx, h⟩ | h)
     · exact ⟨x, Or.inl hx, h⟩
-    · exact ⟨(i, i), Or.inr rfl, h.symm⟩
+    · exact ⟨(i, p), Or.inr rfl, h.symm⟩
 
 theorem has_filter (t : Table) (i j : Nat) : has (t.filter (·.1 != i)) j = (j != i && has t j) := by
   rw [Bool.eq_iff_iff]
@@ -39,7 +39,7 @@ theorem has_filter (t : Table) (i j : Nat) : has (t.filter (·.1 != i)) j = (j !
 theorem step_refines (t : Table) (op : Op) :
     (step t op).2 = (specStep (abs t) op).2 ∧ ∀ j, abs (step t op).1 j = (specStep (abs t) op).1 j := by
   cases op with
-  | create i =>
+  | create i p =>
     simp only [step, specStep, abs]
     by_cases h : has t i = true
     · simp [h]
@@ -72,12 +72,12 @@ theorem C18_refines (ops : List Op) (t : Table) (s : Nat → Bool) (h : ∀ j, a
     exact ⟨by rw [hr, ihr], iha⟩
 
 /-- duplicate registration leaves the first context intact -/
-theorem C18_duplicate (t : Table) (i : Nat) (h : has t i = true) : step t (.create i) = (t, .exists) := by
+theorem C18_duplicate (t : Table) (i p : Nat) (h : has t i = true) : step t (.create i p) = (t, .exists) := by
   simp [step, h]
 
 /-- after a delete the id is free and can be registered again -/
-theorem C18_reregister (t : Table) (i : Nat) :
-    (step (step t (.delete i)).1 (.create i)).2 = .ok := by
+theorem C18_reregister (t : Table) (i p : Nat) :
+    (step (step t (.delete i)).1 (.create i p)).2 = .ok := by
   have : has (t.filter (·.1 != i)) i = false := by rw [has_filter]; simp
   simp [step, this]
 
@@ -86,7 +86,7 @@ theorem C18_unknown_harmless (t : Table) (i : Nat) (h : has t i = false) :
     step t (.workerIn i) = (t, .refused) := by
   simp [step, h]
 
-example : (run [] [.create 1, .create 1, .workerIn 1, .workerIn 2, .delete 1, .workerIn 1, .create 1, .delete 7]).2
+example : (run [] [.create 1 0, .create 1 1, .workerIn 1, .workerIn 2, .delete 1, .workerIn 1, .create 1 2, .delete 7]).2
     = [.ok, .exists, .ok, .refused, .ok, .refused, .ok, .ok] := by decide
 
 /-! ## At most one context per id, at every moment of every history -/
@@ -97,7 +97,7 @@ theorem not_has_iff (t : Table) (i : Nat) : has t i = false ↔ i ∉ t.map (·.
 
 theorem keys_step (t : Table) (op : Op) (h : (t.map (·.1)).Nodup) : ((step t op).1.map (·.1)).Nodup := by
   cases op with
-  | create i =>
+  | create i p =>
     simp only [step]
     by_cases hi : has t i = true
     · simpa [hi] using h
@@ -136,7 +136,105 @@ theorem C18_delete_leaves_nothing (t : Table) (i : Nat) :
   · intro x hx; simpa using (List.mem_filter.mp hx).2
   · intro x hx hne; exact List.mem_filter.mpr ⟨hx, by simpa using hne⟩
 
-example : ((run [] [.create 1, .create 2, .create 1, .delete 1, .create 1, .create 3, .delete 9]).1).map (·.1)
+example : ((run [] [.create 1 0, .create 2 0, .create 1 1, .delete 1, .create 1 2, .create 3 0, .delete 9]).1).map (·.1)
     = [2, 1, 3] := by decide
+
+/-! ## Which context serves a worker request -/
+
+theorem serves_none_iff (t : Table) (i : Nat) : serves t i = none ↔ has t i = false := by
+  induction t with
+  | nil => simp [serves, has]
+  | cons x t ih =>
+    obtain ⟨k, p⟩ := x
+    by_cases h : k = i
+    · simp [serves, has, h]
+    · have hb : (k == i) = false := by simpa using h
+      simp only [serves, hb, Bool.false_eq_true, if_false, ih]
+      simp [has, hb]
+
+theorem serves_append (t : Table) (i p j : Nat) (h : has t i = false) :
+    serves (t ++ [(i, p)]) j = if j == i then some p else serves t j := by
+  induction t with
+  | nil =>
+    by_cases e : i = j
+    · subst e; simp [serves]
+    · have : ¬ j = i := fun e' => e e'.symm
+      simp [serves, e, this]
+  | cons x t ih =>
+    obtain ⟨k, q⟩ := x
+    have hk : (k == i) = false ∧ has t i = false := by
+      simp only [has, List.any_cons, Bool.or_eq_false_iff] at h
+      exact h
+    by_cases e : k = j
+    · subst e
+      have : ¬ k = i := by simpa using hk.1
+      simp [serves, this]
+    · simp only [List.cons_append, serves]
+      have hb : (k == j) = false := by simpa using e
+      simp only [hb, Bool.false_eq_true, if_false]
+      exact ih hk.2
+
+theorem serves_filter (t : Table) (i j : Nat) :
+    serves (t.filter (·.1 != i)) j = if j == i then none else serves t j := by
+  induction t with
+  | nil => simp [serves]
+  | cons x t ih =>
+    obtain ⟨k, q⟩ := x
+    by_cases e : k = i
+    · subst e
+      simp only [List.filter_cons, bne_self_eq_false, Bool.false_eq_true, if_false, ih, serves]
+      by_cases e2 : j = k
+      · subst e2; simp
+      · have : ¬ k = j := fun e' => e2 e'.symm
+        simp [e2, this]
+    · have hb : ((k, q).1 != i) = true := by simpa using e
+      simp only [List.filter_cons, hb, if_true, serves, ih]
+      by_cases e2 : k = j
+      · subst e2; simp [e]
+      · simp [e2]
+
+theorem serve_step (t : Table) (op : Op) (j : Nat) :
+    serves (step t op).1 j = specServe (serves t) op j := by
+  cases op with
+  | create i p =>
+    simp only [step, specServe]
+    by_cases h : has t i = true
+    · have : (serves t i).isSome = true := by
+        rw [Option.isSome_iff_ne_none]; intro hn; rw [serves_none_iff] at hn; simp [hn] at h
+      simp [h, this]
+    · have h' : has t i = false := by simpa using h
+      have : (serves t i).isSome = false := by
+        rw [(serves_none_iff t i).mpr h']; rfl
+      simp only [h', Bool.false_eq_true, if_false, this]
+      exact serves_append t i p j h'
+  | delete i => simp only [step, specServe]; exact serves_filter t i j
+  | workerIn i => simp only [step, specServe]; split <;> rfl
+
+/-- **C18: workers get their own context's work.** After every history the context that the server
+    hands a worker request for id `j` to is the one the dictionary specification holds under `j`:
+    the payload (target and defaults) of the *first* successful registration of `j` since the last
+    delete of `j` - a refused duplicate never replaces it, deletes and registrations of other ids
+    never disturb it, and after a delete nothing of the old context is served. -/
+theorem C18_serves_own (ops : List Op) (t : Table) (j : Nat) :
+    serves (run t ops).1 j = specServeRun (serves t) ops j := by
+  induction ops generalizing t with
+  | nil => rfl
+  | cons op ops ih =>
+    simp only [run, specServeRun]
+    rw [ih]
+    have : serves (step t op).1 = specServe (serves t) op := funext (serve_step t op)
+    rw [this]
+
+/-- A worker request is accepted exactly when a context is served for it. -/
+theorem C18_accepts_iff_served (t : Table) (i : Nat) :
+    (step t (.workerIn i)).2 = .ok ↔ (serves t i).isSome = true := by
+  by_cases h : has t i = true
+  · have : serves t i ≠ none := fun hn => by rw [serves_none_iff] at hn; simp [hn] at h
+    simp [step, h, Option.isSome_iff_ne_none, this]
+  · have h' : has t i = false := by simpa using h
+    simp [step, h', (serves_none_iff t i).mpr h']
+
+example : serves (run [] [.create 1 10, .create 2 20, .create 1 11, .delete 2, .create 2 21, .delete 3]).1 1 = some 10
+    ∧ serves (run [] [.create 1 10, .create 2 20, .create 1 11, .delete 2, .create 2 21, .delete 3]).1 2 = some 21 := by decide
 
 end PwVerif.C18
